@@ -105,8 +105,9 @@ func NewCache(s *server) elton.Handler {
 		if cacheStatus == cache.StatusHit {
 			// 设置缓存数据
 			setHTTPResp(c, httpResp)
-			// 设置缓存数据的age
-			setHTTPRespAge(c, httpCache.Age())
+			// 设置缓存数据的age（使用响应自身的创建时间计算，
+			// 因为在获取响应后该缓存有可能已过期并被重新获取）
+			setHTTPRespAge(c, httpResp.Age())
 			return nil
 		}
 
